@@ -51,11 +51,13 @@ REQUIRED_COUNTERS = {
     "quick": {"split_chain_compared": 150, "checkpoint_continuation_compared": 1200, "callback_state_compared": 5000,
               "step_attr_diff_checked": 10000, "reinit_attr_compared": 1500, "stateless_chain_compared": 70,
               "gibbs_split_compared": 150, "saved_state_unaltered_checked": 1200, "gibbs_burnthin_compared": 1500,
-              "refused_call_aftermath_compared": 2000, "refusal_twin_chain_compared": 300},
+              "refused_call_aftermath_compared": 2000, "refusal_twin_chain_compared": 300,
+              "long_stateless_callbacks_compared": 2500, "long_stateful_callbacks_compared": 1800},
     "thorough": {"split_chain_compared": 1200, "checkpoint_continuation_compared": 14000, "callback_state_compared": 50000,
                  "step_attr_diff_checked": 150000, "reinit_attr_compared": 15000, "stateless_chain_compared": 600,
                  "gibbs_split_compared": 1300, "saved_state_unaltered_checked": 14000, "gibbs_burnthin_compared": 12000,
-                 "refused_call_aftermath_compared": 15000, "refusal_twin_chain_compared": 2500},
+                 "refused_call_aftermath_compared": 15000, "refusal_twin_chain_compared": 2500,
+                 "long_stateless_callbacks_compared": 10000, "long_stateful_callbacks_compared": 7000},
 }
 BUDGET_S = {"quick": 240.0, "thorough": 2400.0}
 
@@ -135,6 +137,39 @@ def cases(tier, seed):
         for rep in range(reps):
             out.append({"kind": "legacy_gibbs", "strategy": strat, "N": rnd.randint(1, 6), "M": rnd.randint(1, 5),
                         "Nb": rnd.choice([0, 0, 1, 3]), "dim": rnd.choice([3, 5, 8]), "rep": rep})
+    # ---- long chains: progress display / periodic logic switches behaviour at lengths >= 200 (Ns//100 > 1, 0.1*N ...)
+    lreps = 1 if tier == "quick" else 4
+    LONG = [200, 201, 250, 399, 400, 1000, 1200]
+    SHORTER = [200, 250, 399]
+    for name, variants in STATELESS.items():
+        for adapt in (False, True):
+            for rep in range(lreps):
+                tk, var = variants[rnd.randrange(len(variants))]
+                total = rnd.choice(SHORTER if name in ("NUTS", "RegularizedLinearRTO", "UGLA") else LONG)
+                Nb = rnd.choice([0, 7, 100, total // 2, total - 10])
+                if name == "NUTS" and Nb == 0:
+                    Nb = 50
+                out.append({"kind": "stateless", "long": True, "sampler": name, "target": tk, "variant": var,
+                            "dim": rnd.choice([1, 2]), "N": total - Nb, "Nb": Nb, "adapt": adapt,
+                            "x0": rnd.random() < 0.5, "Nt": 1, "rep": rep})
+    for name, variants in STATEFUL.items():
+        for rep in range(lreps):
+            tk, var = variants[rnd.randrange(len(variants))]
+            total = rnd.choice(SHORTER if name in ("NUTS", "RegularizedLinearRTO", "UGLA") else LONG)
+            Nb = rnd.choice([0, 10, 100, total // 2, total - 1])
+            out.append({"kind": "stateful_long", "sampler": name, "target": tk, "variant": var, "dim": rnd.choice([1, 2]),
+                        "N": total - Nb, "Nb": Nb, "x0": rnd.random() < 0.5, "tune_freq": rnd.choice([0.1, 0.01, 0.33]),
+                        "batch": rnd.choice([0, 7, 100, 128]), "rep": rep})
+    for strat in ("rto_conj", "mh_conj"):
+        for rep in range(lreps):
+            total = rnd.choice(SHORTER)
+            out.append({"kind": "hybrid", "long": True, "strategy": strat, "N": total - 60, "M": 60,
+                        "Nb": rnd.choice([0, 100, 205]), "dim": 3, "rep": rep})
+    for strat in ("rto_conj", "cwmh_conj"):
+        for rep in range(lreps):
+            total = rnd.choice(SHORTER)
+            out.append({"kind": "legacy_gibbs", "long": True, "strategy": strat, "N": total - 60, "M": 60,
+                        "Nb": rnd.choice([0, 100, 205]), "dim": 3, "rep": rep})
     return out
 
 
@@ -786,6 +821,75 @@ def _run_stateful_inner(case, ctx, cfg, make, cls, x0, x0_keep, watch, tmp, N, M
     ctx.note("distinct_states_in_chain", distinct)
     ctx.note("callback_arg_type", sorted(set(recU.kinds)))
 
+def run_stateful_long(case, ctx):
+    """Long warm-up + sampling run: progress display, tuning intervals and batching must not disturb the
+    bookkeeping (one callback per transition, in order, with the stored state)."""
+    import glob
+    rs = core.np_rng(ctx.seed, PROPERTY, core.canon(case))
+    c2 = dict(case); c2.setdefault("lazy", True)
+    make, cls, x0, x0_keep, n = stateful_factory(c2, rs)
+    cfg = {"interface": "stateful", "sampler": case["sampler"], "target": case["target"], "variant": case["variant"], "length": "long"}
+    N, Nb, bsz = case["N"], case["Nb"], case["batch"]
+    total = N + Nb
+    rec = Recorder(); rec_rng = rec.rng_states
+    produced = []
+    log = contracts.ContractLog()
+    def post(inst, args, kwargs, result, snap):
+        produced.append(R.column(inst.current_point))
+        return None
+    tmp = tempfile.mkdtemp(prefix="verif_c14_")
+    try:
+        s = make(rec)
+        _seed(int(rs.randint(1, 2 ** 31 - 1)))
+        with contracts.ensure(cls, "step", post, log):
+            if Nb:
+                s.warmup(Nb, tune_freq=case["tune_freq"])
+            if bsz:
+                s.sample(N, batch_size=bsz, sample_path=os.path.join(tmp, "b"))
+            else:
+                s.sample(N)
+        chain = _stateful_chain(s)
+        ctx.count("chain_length_checked")
+        if chain.shape[1] != total or len(produced) != total:
+            ctx.violation("chain_length", {**cfg, "phase": "warmup+sample" if Nb else "sample"},
+                          detail=f"warmup({Nb}) + sample({N}): {len(produced)} transitions, get_samples() holds {chain.shape[1]}")
+            return
+        ctx.count("callback_count_checked")
+        if len(rec.states) != total:
+            ctx.violation("callback_count", cfg, detail=f"warmup({Nb}) + sample({N}) = {total} transitions, callback invoked {len(rec.states)} times "
+                                                          f"(indices seen: {rec.indices[:6]}...{rec.indices[-3:]})")
+            return
+        if rec.indices != list(range(total)):
+            k = next(i for i in range(total) if rec.indices[i] != i)
+            ctx.violation("callback_index", {**cfg, "phase": "warmup" if k < Nb else "sample"},
+                          detail=f"callback number {k} of {total} received index {rec.indices[k]}")
+            return
+        ref = np.stack(produced, axis=1)
+        cbs = np.stack(rec.states, axis=1)
+        if not np.array_equal(cbs, ref):
+            ctx.violation("callback_state", cfg, detail="callback states differ from the states the transitions produced: " + _first_diff(cbs, ref))
+            return
+        ctx.count("recorded_vs_transitions_compared")
+        if not np.array_equal(chain, ref):
+            ctx.violation("recorded_chain_differs_from_transitions", cfg, detail=_first_diff(chain, ref))
+            return
+        ctx.count("long_stateful_callbacks_compared", total)
+        if bsz:
+            files = sorted(glob.glob(os.path.join(tmp, "b", "batch_*.npz")))
+            blocks = [np.load(f)["samples"] for f in files]
+            got_b = np.concatenate([np.asarray(b, dtype=float).reshape(len(b), -1) for b in blocks], axis=0).T if blocks else np.zeros((chain.shape[0], 0))
+            nfull = (N // bsz) * bsz
+            ctx.count("batch_record_compared")
+            if len(files) != N // bsz or got_b.shape != (chain.shape[0], nfull) or not np.array_equal(got_b, chain[:, Nb:Nb + nfull]):
+                ctx.violation("batch_record_differs", {**cfg, "batch_size": bsz},
+                              detail=f"sample({N}, batch_size={bsz}) wrote {len(files)} files holding {got_b.shape[1]} states, expected the first {nfull} in order")
+        if _n_distinct(chain) >= 2:
+            ctx.nontrivial("long:" + case["sampler"])
+        ctx.note("long_total_Nb_batch", [total, Nb, bsz])
+    finally:
+        shutil.rmtree(tmp, ignore_errors=True)
+
+
 # --------------------------------------------------------------------------- stateless interface
 
 class UpdateWatch:
@@ -886,6 +990,11 @@ def run_stateless(case, ctx):
         ctx.count("initial_point_unmutated_checked")
         if not np.array_equal(x0, x0_keep):
             ctx.violation("initial_point_mutated", cfg, detail=f"x0 array changed from {x0_keep.tolist()} to {x0.tolist()}")
+    if case.get("long"):
+        if ok_cb and trans is not None:
+            ctx.count("long_stateless_callbacks_compared", T)
+        ctx.note("long_total_Nb_method", [total, Nb, method])
+        return
     # ---- refused / aborted requests leave a stateless sampler exactly as it was
     diag = ("iteration_list", "num_tree_node_list", "epsilon_list", "epsilon_bar_list", "_num_tree_node")  # per-call diagnostics
     if name == "UGLA":
@@ -1219,6 +1328,8 @@ def run_case(case, ctx):
     kind = case["kind"]
     if kind == "stateful":
         run_stateful(case, ctx)
+    elif kind == "stateful_long":
+        run_stateful_long(case, ctx)
     elif kind == "stateless":
         run_stateless(case, ctx)
     elif kind == "hybrid":
